@@ -318,10 +318,15 @@ def val_fn(p):
     return VAL[p]
 
 
-def structured_codec(shapes):
+def structured_codec(shapes, order=None):
+    """one individual's dictionary: the container guarantees its key SET and value shapes, not the ORDER of its keys (dictionaries with the
+    same keys in another order are accepted by add_individual_parameters); `order` is the key order of the dictionaries read in this
+    configuration -- units that read stored dictionaries run once per permutation of the keys"""
+    keys = list(shapes) if order is None else [list(shapes)[k] for k in order]
+
     def wrap(e):
-        return {p: (SV(val_fn(p)(e, z3.IntVal(0)), "real") if shp == () else
-                    [SV(val_fn(p)(e, z3.IntVal(q)), "real") for q in range(shp[0])]) for p, shp in shapes.items()}
+        return {p: (SV(val_fn(p)(e, z3.IntVal(0)), "real") if shapes[p] == () else
+                    [SV(val_fn(p)(e, z3.IntVal(q)), "real") for q in range(shapes[p][0])]) for p in keys}
 
     def unwrap(v):
         if isinstance(v, SV) and v.kind == "u:PD":
@@ -330,10 +335,15 @@ def structured_codec(shapes):
     return Codec(PD, wrap=wrap, unwrap=unwrap, name="one individual's parameters")
 
 
-def stored_container(cx, shapes):
+def key_orders(shapes):
+    import itertools as _it
+    return [list(p) for p in _it.permutations(range(len(shapes)))]
+
+
+def stored_container(cx, shapes, order=None):
     from leaspy.io.outputs.individual_parameters import IndividualParameters
     ids = SSeq(cx, STR, "ids", pytype=list)
-    store = SMap(cx, STR, structured_codec(shapes), "store")
+    store = SMap(cx, STR, structured_codec(shapes, order), "store")
     s = SymObj(IndividualParameters, dict(_indices=ids, _individual_parameters=store, _parameters_shape=dict(shapes),
                                           _default_saving_type="csv"))
     return s, ids, store
@@ -356,11 +366,11 @@ class ToPytorch(Spec):
     target = "leaspy.io.outputs.individual_parameters:IndividualParameters.to_pytorch"
 
     def configs(self):
-        return [dict(shapes=k) for k in SHAPE_CASES]
+        return [dict(shapes=k, key_order="".join(map(str, o))) for k in SHAPE_CASES for o in key_orders(SHAPE_CASES[k])]
 
     def setup(self, cx, cfg):
         shapes = SHAPE_CASES[cfg["shapes"]]
-        s, ids, store = stored_container(cx, shapes)
+        s, ids, store = stored_container(cx, shapes, [int(c) for c in cfg["key_order"]])
         cx.ghost["c16tp"] = dict(ids=ids, shapes=shapes)
         return dict(args=(s,), self=s, ids=ids, store=store, shapes=shapes)
 
@@ -601,11 +611,11 @@ class ToDataFrameRows(Spec):
         iter_pre=lambda cx, env, k, view: len(cx.ghost["rows"].rows), iter_post=to_dataframe_iter_post)}
 
     def configs(self):
-        return [dict(shapes=k) for k in SHAPE_CASES]
+        return [dict(shapes=k, key_order="".join(map(str, o))) for k in SHAPE_CASES for o in key_orders(SHAPE_CASES[k])]
 
     def setup(self, cx, cfg):
         shapes = SHAPE_CASES[cfg["shapes"]]
-        s, ids, store = stored_container(cx, shapes)
+        s, ids, store = stored_container(cx, shapes, [int(c) for c in cfg["key_order"]])
         rec = RowRecorder()
         cx.ghost.update(rows=rec, ids=ids, store=store, shapes=shapes)
         return dict(env={"self": s, "arr": rec}, self=s, ids=ids, store=store, shapes=shapes)
